@@ -68,16 +68,80 @@ P0 = b"pw"
 PWS = (P0, "text passphrase", b"\x00\xff\x80\n bin", asc(150, 1), b"x", "p\u00e4ss\u00ffw\u00f6rd")
 
 
+# ---- thorough-only alphabets (levels "full+" and "full++") ---------------------------------------------------------
+# HMAC block sizes in octets (FIPS 180-4 / FIPS 202 rate); scrypt derives through PBKDF2-HMAC-SHA256 (RFC 7914)
+HMAC_BLOCK = {"SHA1": 64, "SHA224": 64, "SHA256": 64, "SHA384": 128, "SHA512": 128, "SHA512-224": 128, "SHA512-256": 128,
+              "SHA3-224": 144, "SHA3-256": 136, "SHA3-384": 104, "SHA3-512": 72, None: 64}
+PWLEN_CIPHERS = ("AES128-CBC", "AES256-GCM")
+# legacy PEM encryption: MD5(passphrase || salt8) then MD5(digest16 || passphrase || salt8); the hashed strings are
+# 55 | 56 | 57 and 63 | 64 | 65 octets long (MD5 padding boundary and block boundary) in the first resp. second round
+LEGACY_PWLENS = (31, 32, 33, 39, 40, 41, 47, 48, 49, 55, 56, 57)
+# prot_params sweeps (primary keys): values on both sides of the DER INTEGER / length octet boundaries
+SWEEP_PBKDF2_BIG = ("PBKDF2WithHMAC-SHA1AndAES256-CBC", "PBKDF2WithHMAC-SHA512AndAES128-GCM")
+SWEEP_PBKDF2_SMALL = ("PBKDF2WithHMAC-SHA3-256AndDES-EDE3-CBC", "PBKDF2WithHMAC-SHA512-256AndAES192-GCM")
+SWEEP_COUNTS = (3, 127, 128, 255, 256, 999, 1001, 32767, 32768, 65535, 65536)
+SWEEP_COUNTS_SMALL = (3, 127, 128, 255, 256)
+SWEEP_SALTS = (1, 7, 9, 15, 17, 32, 127, 128, 255, 256)
+SWEEP_SCRYPT = ("scryptAndAES128-CBC", "scryptAndAES256-GCM")
+SWEEP_SCRYPT_N = (2, 4, 128, 256, 1024)
+SWEEP_SCRYPT_R = (1, 2, 8, 16)
+SWEEP_SCRYPT_P = (1, 2, 3)
+SWEEP_SCRYPT_BIGN = (32768, 65536)          # with r = p = 1
+
+
+def pw_of_len(n):
+    """printable passphrase of n octets (never ends in NUL: HMAC pads keys with NUL octets)"""
+    return bytes(0x21 + (i * 7 + n) % 0x5E for i in range(n))
+
+
+def pwlen_cfgs(base, level, dsa=False):
+    """passphrase lengths B-1, B, B+1 around the HMAC block size B of every KDF (11 PBKDF2 PRFs + scrypt) x 2 ciphers"""
+    c = []
+    for h in HASHES + (None,):
+        for ci in PWLEN_CIPHERS:
+            prot = ("PBKDF2WithHMAC-%sAnd%s" % (h, ci)) if h else "scryptAnd%s" % ci
+            for ln in (HMAC_BLOCK[h] - 1, HMAC_BLOCK[h], HMAC_BLOCK[h] + 1):
+                kw = dict(base, format="DER", passphrase=pw_of_len(ln), protection=prot)
+                if not dsa:
+                    kw["prot_params"] = pps_for(prot, "cover")[0]
+                c.append(kw)
+    return c
+
+
+def sweep_cfgs(base):
+    """level full++: prot_params sweeps and the documented defaults for every protection"""
+    c = []
+    for prot in SWEEP_PBKDF2_BIG:
+        c += [dict(base, format="DER", passphrase=P0, protection=prot, prot_params={"iteration_count": n}) for n in SWEEP_COUNTS]
+    for prot in SWEEP_PBKDF2_SMALL:
+        c += [dict(base, format="DER", passphrase=P0, protection=prot, prot_params={"iteration_count": n}) for n in SWEEP_COUNTS_SMALL]
+    for prot in SWEEP_PBKDF2_BIG + SWEEP_PBKDF2_SMALL + SWEEP_SCRYPT:
+        c += [dict(base, format="DER", passphrase=P0, protection=prot, prot_params={"iteration_count": 2, "salt_size": n}) for n in SWEEP_SALTS]
+    for prot in SWEEP_SCRYPT:
+        for n in SWEEP_SCRYPT_N:
+            for r in SWEEP_SCRYPT_R:
+                for pz in SWEEP_SCRYPT_P:
+                    c.append(dict(base, format="DER", passphrase=P0, protection=prot,
+                                  prot_params={"iteration_count": n, "block_size": r, "parallelization": pz}))
+        c += [dict(base, format="DER", passphrase=P0, protection=prot,
+                   prot_params={"iteration_count": n, "block_size": 1, "parallelization": 1}) for n in SWEEP_SCRYPT_BIGN]
+    # prot_params absent: the documented defaults (PBKDF2 count 1000, scrypt N 16384 r 8 p 1, 8-octet salt) for every protection
+    for prot in PROTS:
+        for f in ("DER", "PEM"):
+            c.append(dict(base, format=f, passphrase=P0, protection=prot))
+    return c
+
+
 def pps_for(prot, level):
     """prot_params alphabet: PBKDF2 iteration_count 1, 2; scrypt N 2, 16 (r = 8, p = 1); thorough adds a 16-byte
     salt and (scrypt) r = 1, p = 2"""
     if prot.startswith("scrypt"):
         out = [{"iteration_count": 2}, {"iteration_count": 16}]
-        if level == "full+":
+        if level in ("full+", "full++"):
             out.append({"iteration_count": 4, "block_size": 1, "parallelization": 2, "salt_size": 16})
     else:
         out = [{"iteration_count": 1}, {"iteration_count": 2}]
-        if level == "full+":
+        if level in ("full+", "full++"):
             out.append({"iteration_count": 2, "salt_size": 16})
     return out if level not in ("cover", "mini") else out[:1]
 
@@ -113,9 +177,14 @@ def rsa_cfgs(priv, level):
             for f in ("DER", "PEM"):
                 c.append({"format": f, "pkcs": 8, "passphrase": P0, "protection": prot, "prot_params": pp})
     for pw in PWS[1:]:
-        for prot in (PROTS if level == "full+" else PW_PROTS):
+        for prot in (PROTS if level in ("full+", "full++") else PW_PROTS):
             c.append({"format": "DER", "pkcs": 8, "passphrase": pw, "protection": prot, "prot_params": pps_for(prot, "cover")[0]})
     c.append({"format": "PEM", "pkcs": 8, "passphrase": P0, "protection": "scryptAndAES128-CBC"})   # scrypt defaults (N = 16384)
+    if level in ("full+", "full++"):
+        c += pwlen_cfgs({"pkcs": 8}, level)
+        c += [{"format": "PEM", "pkcs": 1, "passphrase": pw_of_len(n)} for n in LEGACY_PWLENS]
+    if level == "full++":
+        c += sweep_cfgs({"pkcs": 8})
     return c
 
 
@@ -141,8 +210,11 @@ def dsa_cfgs(priv, level):
             c.append({"format": f, "passphrase": P0, "protection": prot})
     c.append({"format": "DER", "pkcs8": True, "passphrase": P0, "protection": PW_PROTS[2]})
     for pw in PWS[1:]:
-        for prot in ([p for p in PROTS if not p.startswith("scrypt")] + ["scryptAndAES128-GCM"] if level == "full+" else PW_PROTS[:3]):
+        for prot in ([p for p in PROTS if not p.startswith("scrypt")] + ["scryptAndAES128-GCM"] if level in ("full+", "full++") else PW_PROTS[:3]):
             c.append({"format": "DER", "passphrase": pw, "protection": prot})
+    if level in ("full+", "full++"):
+        c += pwlen_cfgs({}, level, dsa=True)
+        c += [{"format": "PEM", "pkcs8": False, "passphrase": pw_of_len(n)} for n in LEGACY_PWLENS]
     return c
 
 
@@ -175,10 +247,16 @@ def ecc_cfgs(curve, priv, level):
             for f in ("DER", "PEM"):
                 c.append({"format": f, "passphrase": P0, "protection": prot, "prot_params": pp})
     for pw in PWS[1:]:
-        for prot in (PROTS if level == "full+" else PW_PROTS):
+        for prot in (PROTS if level in ("full+", "full++") else PW_PROTS):
             c.append({"format": "DER", "passphrase": pw, "protection": prot, "prot_params": pps_for(prot, "cover")[0]})
     c.append({"format": "DER", "passphrase": P0, "protection": "PBKDF2WithHMAC-SHA256AndAES128-CBC"})   # default count 1000
     c.append({"format": "PEM", "use_pkcs8": True, "passphrase": P0, "protection": "scryptAndAES128-GCM"})  # scrypt defaults
+    if level in ("full+", "full++"):
+        c += pwlen_cfgs({}, level)
+        if curve in KS.WEIER:
+            c += [{"format": "PEM", "use_pkcs8": False, "passphrase": pw_of_len(n)} for n in LEGACY_PWLENS]
+    if level == "full++":
+        c += sweep_cfgs({})
     return c
 
 
@@ -481,12 +559,33 @@ def info_comps(info):
     return pub + (info.get("d"), info.get("seed")) if info["priv"] else pub
 
 
-def rt_case(kd, priv, kw, tape, acc, size=None):
-    """one export configuration of one key, all oracles"""
+def wrong_passphrases(pw, deep):
+    """the wrong-passphrase alphabet for one passphrase (None = no passphrase at all is added by the caller)"""
+    if isinstance(pw, str):
+        alt = [pw + "x", pw[:-1] or "q"]
+        if deep:
+            alt += [chr(ord(pw[0]) ^ 1) + pw[1:], pw[:-1] + chr(ord(pw[-1]) ^ 0x80)]
+    else:
+        pw = bytes(pw)
+        alt = [pw + b"x", pw[:-1] or b"q"]
+        if deep:
+            alt += [bytes([pw[0] ^ 1]) + pw[1:], pw[:-1] + bytes([pw[-1] ^ 0x80])]
+    return tuple(alt)
+
+
+def _len_form(der):
+    """length form of the outermost TLV of a DER blob"""
+    return {0x81: "0x81", 0x82: "0x82", 0x83: "0x83"}.get(der[1], "short" if der[1] < 0x80 else "other")
+
+
+def rt_case(kd, priv, kw, tape, acc, size=None, deep=False):
+    """one export configuration of one key, all oracles; deep (thorough tier): two more wrong passphrases (lowest bit of
+    the first octet flipped, top bit of the last octet flipped) and a second import of every textual artefact from the
+    other documented input type (str <-> bytes)"""
     t = kd["t"]
     exp = expect(kd, priv, kw)
     key = KS.libkey(kd, priv)
-    case = {"part": "rt", "kd": kd, "priv": priv, "kw": kw, "tape": tape}
+    case = {"part": "rt", "kd": kd, "priv": priv, "kw": kw, "tape": tape, "deep": deep}
     what = _what(kd, priv, kw)
     cls = [t, priv, kw.get("format", "PEM")]
 
@@ -567,6 +666,14 @@ def rt_case(kd, priv, kw, tape, acc, size=None):
                 enc["cipher"] if enc else None]
         for s in info["chain"]:
             acc.seen("structures", (t, s))
+        if container in ("pem", "der"):
+            outer = der if container == "pem" else text
+            acc.seen("lenform", (t, info["chain"][0], _len_form(outer)))
+            clen = len(outer) - (2 if outer[1] < 0x80 else 2 + (outer[1] & 0x7F))
+            if info["chain"][0] == "pkcs1" and clen in (127, 128, 255, 256):
+                acc.seen("pkcs1_boundary", clen)              # last short form | first 0x81 form | last 0x81 form | first 0x82 form
+            if container == "pem":
+                acc.seen("pem_shape", (len(der) % 3, len(der) % 48 == 0))
         # components
         got = info_comps(info)
         want = KS.expected_comps(kd, exp["as_private"])
@@ -620,11 +727,34 @@ def rt_case(kd, priv, kw, tape, acc, size=None):
         else:
             acc.count("roundtrip_ok")
             if info is not None and info.get("enc"):
-                acc.seen("prot_ok", (t, info["enc"]["kdf"], info["enc"]["hash"], info["enc"]["cipher"]))
+                e_ = info["enc"]
+                acc.seen("prot_ok", (t, e_["kdf"], e_["hash"], e_["cipher"]))
+                if deep:
+                    acc.seen("pp_ok", (e_["kdf"], e_["count"], len(e_["salt"]), e_.get("r"), e_.get("p")))
+                    acc.seen("pwlen_ok", (e_["kdf"], e_["hash"], len(R.pw_bytes(pw))))
+            elif deep and peminfo["encrypted"]:
+                acc.seen("pwlen_ok", ("legacy-pem", None, len(R.pw_bytes(pw))))
+            # ---- (1b) the other documented input type of a textual artefact ---------------------------
+            if deep and container in ("pem", "openssh"):
+                alt_blob = text.decode("ascii") if isinstance(blob, (bytes, bytearray)) else text
+                alt_t = type(alt_blob).__name__
+                acc.count("evaluations")
+                acc.count("alt_type_imports")
+                try:
+                    got2 = KS.lib_comps(_import(t, kd, alt_blob, pw, container))
+                except Exception as e:  # noqa
+                    viol("roundtrip/as-%s/import-raises-%s@%s" % (alt_t, type(e).__name__, exc_site(e)),
+                         "import of the exported text handed over as %s raised %s: %s" % (alt_t, type(e).__name__, e))
+                else:
+                    if got2 != want:
+                        viol("roundtrip/as-%s/components-differ/%s" % (alt_t, ((KS.diff_comps(got2, want) if got2[0] == want[0] else ["type"]) or ["?"])[0]),
+                             "import of the exported text handed over as %s has other components" % alt_t)
+                    else:
+                        acc.count("alt_type_ok")
+                        acc.seen("alt_type", (t, container, alt_t))
     # ---- (2) wrong passphrases ----------------------------------------------------------------
     if protected and pw:
-        alt = (pw + "x", pw[:-1] or "q") if isinstance(pw, str) else (bytes(pw) + b"x", bytes(pw)[:-1] or b"q")
-        for wp in alt + (None,):
+        for wp in wrong_passphrases(pw, deep) + (None,):
             acc.count("evaluations")
             acc.count("wrong_pw_attempts")
             if gcm:
@@ -673,14 +803,15 @@ SAMPLE_FROM = {("rsa1024-e65537", True, 48), ("dsa1024-xsmall-y00", False, 0), (
 def rt_worker(shard):
     install_seams()
     acc = Acc()
-    name, priv, level, lo, hi, kidx = shard
+    name, priv, level, lo, hi, kidx = shard[:6]
+    deep = len(shard) > 6 and bool(shard[6])
     kd = _KEYS[name]
     cfgs = cfgs_for(kd, priv, level)
     _LAST[0] = None
     for i in range(lo, min(hi, len(cfgs))):
         kw = cfgs[i]
         tape = "%d|%s|%s|%d" % (SEED, name, "priv" if priv else "pub", i)
-        rt_case(kd, priv, kw, tape, acc, size=(2 * kidx + (0 if priv else 1)) * 1000 + i)
+        rt_case(kd, priv, kw, tape, acc, size=(2 * kidx + (0 if priv else 1)) * 2000 + i, deep=deep)
     if (name, priv, lo) in SAMPLE_FROM and _LAST[0]:
         acc.sample(_LAST[0])
     return acc
@@ -720,6 +851,24 @@ def eq_objects(keys, quick):
         out.append({"kd": kd, "priv": True, "variant": "a"})
         out.append({"kd": kd, "priv": False, "variant": "a"})
         out.append({"kd": kd, "priv": True, "variant": "b"})
+    if not quick:
+        # thorough: more near misses.  The negated point on the other Weierstrass curves; the Edwards point with the other
+        # sign of x (public only); a DSA key with the same p, q, y but the generator g^2 (and x/2): only g and x differ
+        for c in ("p192", "p224", "p384"):
+            k = keys[c + "-x00"]
+            cv = R.EC.CURVES[c]
+            for pr in (True, False):
+                out.append({"kd": dict(k, name=c + "-x00-negated", d=cv.order - k["d"], Q=[k["Q"][0], cv.p - k["Q"][1]]), "priv": pr, "variant": "a"})
+        for c in KS.EDW:
+            k = keys[c + "-seeded"]
+            out.append({"kd": dict(k, name=c + "-seeded-xnegated", d=None, seed=None, Q=[R.EC.CURVES[c].p - k["Q"][0], k["Q"][1]]),
+                        "priv": False, "variant": "a"})
+        for nm in ("dsa1024-160", "dsa2048-256"):
+            k = keys[nm]
+            out.append({"kd": dict(k, name=nm + "-gsquared", g=k["g"] * k["g"] % k["p"], x=k["x"] * KS.nt.inverse(2, k["q"]) % k["q"]),
+                        "priv": True, "variant": "a"})
+            out.append({"kd": dict(k, name=nm + "-gsquared", g=k["g"] * k["g"] % k["p"], x=k["x"] * KS.nt.inverse(2, k["q"]) % k["q"]),
+                        "priv": False, "variant": "a"})
     return out
 
 
@@ -773,6 +922,8 @@ def _mk_src(o):
         s = "DSA.construct((%d, %d, %d, %d%s))" % (kd["y"], kd["g"], kd["p"], kd["q"], ", %d" % kd["x"] if priv else "")
     elif t == "ElGamal":
         s = "ElGamal.construct((%d, %d, %d%s))" % (kd["p"], kd["g"], kd["y"], ", %d" % kd["x"] if priv else "")
+    elif kd.get("d") is None and kd.get("seed") is None:
+        s = "ECC.construct(curve=%r, point_x=%d, point_y=%d)" % (kd["curve"], kd["Q"][0], kd["Q"][1])
     else:
         s = ("ECC.construct(curve=%r, d=%d)" % (kd["curve"], kd["d"]) if kd.get("d") is not None else
              "ECC.construct(curve=%r, seed=bytes.fromhex(%r))" % (kd["curve"], bytes(kd["seed"]).hex())) + ("" if priv else ".public_key()")
@@ -917,18 +1068,27 @@ def run(ctx):
     nconf = {}
     for kidx, (name, kd) in enumerate(_KEYS.items()):
         for priv in (True, False):
-            level = ("full" if name in primary else "cover") if q else ("full+" if name in primary else "full")
+            level = ("full" if name in primary else "cover") if q else ("full++" if name in primary else "full+")
             if q and kd["t"] == "DSA":
                 level = "full-der" if name in primary else ("mini" if kd["p"].bit_length() > 1024 else "cover")
-            if not q and kd["t"] == "RSA" and kd["n"].bit_length() >= 2048:
-                level = "cover"
             n = len(cfgs_for(kd, priv, level))
             nconf[(kd["t"], priv, level)] = n
-            step = 12 if kd["t"] == "DSA" else 24
+            if q:
+                step = 12 if kd["t"] == "DSA" else 24
+            else:
+                bits = kd["p"].bit_length() if kd["t"] == "DSA" else kd["n"].bit_length() if kd["t"] == "RSA" else 0
+                step = (6 if bits > 2048 else 8 if bits > 1024 else 12) if kd["t"] == "DSA" else \
+                       (8 if bits > 2048 else 16 if bits >= 2039 else 24 if kd["t"] == "RSA" else 48)
             for lo in range(0, n, step):
-                shards.append((name, priv, level, lo, lo + step, kidx))
+                shards.append((name, priv, level, lo, lo + step, kidx) + (() if q else (True,)))
     # heavy shards first
-    shards.sort(key=lambda s: (0 if _KEYS[s[0]]["t"] == "DSA" else 1))
+    if q:
+        shards.sort(key=lambda s: (0 if _KEYS[s[0]]["t"] == "DSA" else 1))
+    else:
+        def weight(s):
+            kd = _KEYS[s[0]]
+            return -(kd["p"].bit_length() * 2 if kd["t"] == "DSA" else kd["n"].bit_length() if kd["t"] == "RSA" else 256)
+        shards.sort(key=weight)
     t0 = time.time()
     ctx.pmap(rt_worker, shards)
     phases["rt"] = round(time.time() - t0, 1)
@@ -1032,7 +1192,7 @@ def replay(case, acc):
         kd = case["kd"]
         if kd.get("seed") is not None:
             kd["seed"] = bytes(kd["seed"])
-        rt_case(kd, case["priv"], case["kw"], case["tape"], acc)
+        rt_case(kd, case["priv"], case["kw"], case["tape"], acc, deep=bool(case.get("deep")))
     elif part == "eq":
         oa, ob = case["a"], case["b"]
         for o in (oa, ob):
